@@ -41,6 +41,8 @@ enum COp {
     Sync,
     /// advances the (shared) mock clock
     Advance { ns: u32 },
+    /// one complete iteration; every yielded (key, value) is judged like a `get` that spans it
+    Iter,
 }
 
 impl COp {
@@ -53,6 +55,7 @@ impl COp {
             COp::InvalidateAll => "invalidate_all".into(),
             COp::Sync => "sync".into(),
             COp::Advance { ns } => format!("advance {}", ns),
+            COp::Iter => "iter".into(),
         }
     }
     fn parse(s: &str) -> Option<COp> {
@@ -67,6 +70,7 @@ impl COp {
             "invalidate_all" => COp::InvalidateAll,
             "sync" => COp::Sync,
             "advance" => COp::Advance { ns: num()? },
+            "iter" => COp::Iter,
             _ => return None,
         })
     }
@@ -82,11 +86,18 @@ impl COp {
 struct Prog {
     cfg: Config,
     threads: Vec<Vec<COp>>,
+    /// The cache has been idle for longer than the periodical-sync interval when the threads
+    /// start: operations then queue up without running the maintenance themselves until a
+    /// flush point (64 queued operations) is reached; only explicit `sync()` calls run it.
+    idle: bool,
 }
 
 impl Prog {
     fn text(&self, mode: &str, strategy: &str, sseed: u64) -> String {
         let mut s = format!("# engine conmon\nmode {} strategy {} sseed {}\n{}\n", mode, strategy, sseed, self.cfg.to_line());
+        if self.idle {
+            s.push_str("idle 1\n");
+        }
         for (i, t) in self.threads.iter().enumerate() {
             let ops: Vec<String> = t.iter().map(|o| o.text()).collect();
             s.push_str(&format!("thread {}: {}\n", i, ops.join("; ")));
@@ -107,6 +118,7 @@ fn parse_prog(text: &str) -> Option<(Prog, String, String, u64)> {
     let mut cfg = None;
     let mut threads = Vec::new();
     let (mut mode, mut strategy, mut sseed) = ("baton".to_string(), "uniform".to_string(), 0u64);
+    let mut idle = false;
     for line in text.lines() {
         let line = line.trim();
         if line.is_empty() || line.starts_with('#') {
@@ -119,6 +131,8 @@ fn parse_prog(text: &str) -> Option<(Prog, String, String, u64)> {
             sseed = p.get(5)?.parse().ok()?;
         } else if line.starts_with("config") {
             cfg = Config::parse_line(line);
+        } else if line.starts_with("idle") {
+            idle = line.split_whitespace().nth(1) == Some("1");
         } else if line.starts_with("thread") {
             let (_, ops) = line.split_once(':')?;
             let mut v = Vec::new();
@@ -131,7 +145,7 @@ fn parse_prog(text: &str) -> Option<(Prog, String, String, u64)> {
             threads.push(v);
         }
     }
-    Some((Prog { cfg: cfg?, threads }, mode, strategy, sseed))
+    Some((Prog { cfg: cfg?, threads, idle }, mode, strategy, sseed))
 }
 
 const HOUR: u64 = 3_600_000_000_000;
@@ -167,7 +181,93 @@ fn gen_cfg(rng: &mut Rng, keys: u32) -> Config {
     }
 }
 
+/// "Disorder": one thread is likely to be overtaken between changing the map and queueing its
+/// operation, by a thread that invalidates everything, inserts another key and reads it. The deques
+/// then hold entries in another order than their timestamps; with no capacity pressure, whatever
+/// is invisible afterwards must be purged by the maintenance, and whatever was written last stays.
+fn gen_disorder_prog(rng: &mut Rng) -> Prog {
+    let keys = rng.range(2, 3) as u32;
+    let mut cfg = gen_cfg(rng, keys);
+    cfg.cap = *rng.pick(&[None, Some(64u64)]);
+    match rng.below(4) {
+        0 => {
+            cfg.ttl = Some(HOUR);
+            cfg.tti = None;
+        }
+        1 => {
+            cfg.ttl = None;
+            cfg.tti = Some(HOUR);
+        }
+        _ => {}
+    }
+    let w = |rng: &mut Rng| if cfg.weigher { *rng.pick(&[1u32, 1, 2, 3]) } else { 1 };
+    let mut threads = Vec::new();
+    let a = rng.below(keys as u64) as u32;
+    let b = (a + 1) % keys;
+    let mut t1 = vec![COp::Insert { k: a, w: w(rng) }];
+    if rng.chance(1, 3) {
+        t1.push(COp::Get { k: a });
+    }
+    threads.push(t1);
+    let mut t2 = Vec::new();
+    if rng.chance(1, 3) {
+        t2.push(COp::Insert { k: b, w: w(rng) });
+    }
+    t2.push(COp::InvalidateAll);
+    t2.push(COp::Insert { k: b, w: w(rng) });
+    for _ in 0..rng.range(0, 2) {
+        t2.push(if rng.chance(1, 4) { COp::Iter } else { COp::Get { k: b } });
+    }
+    if rng.chance(1, 2) {
+        t2.push(COp::Sync);
+    }
+    threads.push(t2);
+    if rng.chance(1, 2) {
+        let k = rng.below(keys as u64) as u32;
+        threads.push(vec![*rng.pick(&[COp::Sync, COp::Get { k }, COp::Invalidate { k }, COp::Insert { k, w: 1 }])]);
+    }
+    Prog { cfg, threads, idle: rng.chance(1, 2) }
+}
+
+/// "Too big": a fresh value heavier than max_capacity is inserted, invalidated and the key
+/// re-inserted with a value that fits, while another thread runs the maintenance (and may be held
+/// right before it rejects the heavy candidate). A fresh too-big entry is never admitted, so it
+/// puts no pressure on anybody: the re-inserted value must be there in the end.
+fn gen_toobig_prog(rng: &mut Rng) -> Prog {
+    let keys = rng.range(1, 3) as u32;
+    let mut cfg = gen_cfg(rng, keys);
+    cfg.weigher = true;
+    let cap = *rng.pick(&[4u64, 8, 64]);
+    cfg.cap = Some(cap);
+    let big = (cap + rng.range(1, 40)) as u32;
+    let k = rng.below(keys as u64) as u32;
+    let mut threads = Vec::new();
+    let mut tw = Vec::new();
+    if rng.chance(1, 3) {
+        tw.push(COp::Insert { k, w: 1 });
+        tw.push(COp::Invalidate { k });
+    }
+    tw.push(COp::Insert { k, w: big });
+    tw.push(COp::Invalidate { k });
+    tw.push(COp::Insert { k, w: 1 });
+    if rng.chance(1, 3) {
+        tw.push(COp::Get { k });
+    }
+    threads.push(tw);
+    threads.push((0..rng.range(1, 3)).map(|_| COp::Sync).collect());
+    if keys > 1 && rng.chance(1, 2) {
+        let o = (k + 1) % keys;
+        threads.push(vec![COp::Insert { k: o, w: 1 }, *rng.pick(&[COp::Sync, COp::Get { k: o }, COp::Insert { k: o, w: 1 }])]);
+    }
+    Prog { cfg, threads, idle: rng.chance(2, 3) }
+}
+
 fn gen_prog(rng: &mut Rng) -> Prog {
+    match rng.below(10) {
+        0 | 1 => return gen_disorder_prog(rng),
+        2 => return gen_toobig_prog(rng),
+        _ => {}
+    }
     let keys = rng.range(1, 3) as u32;
     let cfg = gen_cfg(rng, keys);
     let nthreads = rng.range(2, 4) as usize;
@@ -180,7 +280,8 @@ fn gen_prog(rng: &mut Rng) -> Prog {
             let w = if cfg.weigher { *rng.pick(&[0u32, 1, 1, 2, 3]) } else { 1 };
             ops.push(match rng.below(if short_expiry(&cfg) { 23 } else { 20 }) {
                 0..=7 => COp::Insert { k, w },
-                8..=13 => COp::Get { k },
+                8..=12 => COp::Get { k },
+                13 => COp::Iter,
                 14 => COp::Contains { k },
                 15 | 16 => COp::Invalidate { k },
                 17 => COp::InvalidateAll,
@@ -190,7 +291,7 @@ fn gen_prog(rng: &mut Rng) -> Prog {
         }
         threads.push(ops);
     }
-    Prog { cfg, threads }
+    Prog { cfg, threads, idle: rng.chance(1, 4) }
 }
 
 // ---------------------------------------------------------------------------------------------
@@ -209,6 +310,8 @@ struct Ev {
     clock_call: u64,
     clock_ret: u64,
     done: bool,
+    /// iter: what was yielded
+    items: Vec<(u32, u64)>,
 }
 
 static STAMP: AtomicU64 = AtomicU64::new(1);
@@ -233,7 +336,7 @@ impl Shared {
 }
 
 fn exec_op(sh: &Shared, tid: usize, counter: &mut u64, op: COp, log: &mut Vec<Ev>) {
-    let mut ev = Ev { tid, op, vid: 0, call: 0, ret: 0, result: None, clock_call: sh.now(), clock_ret: 0, done: false };
+    let mut ev = Ev { tid, op, vid: 0, call: 0, ret: 0, result: None, clock_call: sh.now(), clock_ret: 0, done: false, items: Vec::new() };
     if let COp::Insert { .. } = op {
         *counter += 1;
         ev.vid = (tid as u64 + 1) * 1_000_000 + *counter;
@@ -251,8 +354,14 @@ fn exec_op(sh: &Shared, tid: usize, counter: &mut u64, op: COp, log: &mut Vec<Ev
             ev.clock_call = sh.now();
             sh.cache.invalidate_all();
         }
-        COp::Sync => sh.cache.sync(),
+        COp::Sync => {
+            sh.cache.sync();
+            // what the explicit maintenance run left in the write queue (judged against the writes
+            // of other threads that overlapped the call, see `check_sync_backlog`)
+            ev.result = Some(sh.cache.verif_queue_state().1 as u64);
+        }
         COp::Advance { ns } => sh.clock.advance(Duration::from_nanos(ns as u64)),
+        COp::Iter => ev.items = sh.cache.iter().map(|e| (e.key().id, e.value().vid)).collect(),
     }
     ev.ret = stamp();
     ev.clock_ret = sh.now();
@@ -267,13 +376,23 @@ fn exec_op(sh: &Shared, tid: usize, counter: &mut u64, op: COp, log: &mut Vec<Ev
 struct CheckStats {
     overlapping_reads: u64,
     gets_judged: u64,
+    iter_items_judged: u64,
 }
 
 fn check_history(evs: &[Ev], final_gets: &[(u32, Option<u64>)], final_stamp: u64, ttl: Option<u64>) -> (Vec<Violation>, CheckStats) {
     let mut out = Vec::new();
-    let mut st = CheckStats { overlapping_reads: 0, gets_judged: 0 };
+    let mut st = CheckStats { overlapping_reads: 0, gets_judged: 0, iter_items_judged: 0 };
     let mut by_key: BTreeMap<u32, Vec<&Ev>> = BTreeMap::new();
     let inv_all: Vec<&Ev> = evs.iter().filter(|e| e.op == COp::InvalidateAll).collect();
+    let iters: Vec<&Ev> = evs.iter().filter(|e| e.op == COp::Iter && e.done).collect();
+    for e in &iters {
+        let mut seen = HashSet::new();
+        for (k, _) in &e.items {
+            if !seen.insert(*k) {
+                out.push(Violation { props: vec!["C16"], sig: "iter:duplicate-key:concurrent".into(), detail: format!("an iteration by thread {} yielded key {} twice", e.tid, k), op_index: 0 });
+            }
+        }
+    }
     for e in evs {
         if let Some(k) = e.op.key() {
             by_key.entry(k).or_default().push(e);
@@ -332,28 +451,47 @@ fn check_history(evs: &[Ev], final_gets: &[(u32, Option<u64>)], final_stamp: u64
         let writes: HashMap<u64, &Ev> = kev.iter().filter(|e| matches!(e.op, COp::Insert { .. })).map(|e| (e.vid, *e)).collect();
         // per reader: last counter seen per writer
         let mut last_seen: HashMap<(usize, u64), u64> = HashMap::new();
-        let mut reads: Vec<(&Ev, Option<u64>, u64, String)> = Vec::new();
+        let mut reads: Vec<(&Ev, Option<u64>, u64, String, bool)> = Vec::new();
         for e in kev.iter().filter(|e| matches!(e.op, COp::Get { .. }) && e.done) {
-            reads.push((e, e.result, e.call, format!("get by thread {}", e.tid)));
+            reads.push((e, e.result, e.call, format!("get by thread {}", e.tid), false));
         }
-        for (e, res, begin, who) in &reads {
+        for e in iters.iter() {
+            for (_, v) in e.items.iter().filter(|(ik, _)| ik == k) {
+                reads.push((e, Some(*v), e.call, format!("iteration by thread {}", e.tid), true));
+            }
+        }
+        reads.sort_by_key(|r| r.0.call);
+        for (e, res, begin, who, is_iter) in &reads {
             st.gets_judged += 1;
+            if *is_iter {
+                st.iter_items_judged += 1;
+            }
             if kev.len() <= 2000 && kev.iter().any(|w| !matches!(w.op, COp::Get { .. } | COp::Contains { .. }) && w.call < e.ret && (!w.done || w.ret > e.call)) {
                 st.overlapping_reads += 1;
             }
             if let Some(v) = res {
                 match writes.get(v) {
-                    None => out.push(Violation { props: vec!["C02", "C01"], sig: "concurrent:phantom-value".into(), detail: format!("{} of key {} returned {}, which nobody wrote to it", who, k, v), op_index: 0 }),
+                    None => out.push(Violation {
+                        props: if *is_iter { vec!["C16"] } else { vec!["C02", "C01"] },
+                        sig: "concurrent:phantom-value".into(),
+                        detail: format!("{} of key {} returned {}, which nobody wrote to it", who, k, v),
+                        op_index: 0,
+                    }),
                     Some(w) => {
                         if w.call > e.ret {
-                            out.push(Violation { props: vec!["C02"], sig: "concurrent:future-value".into(), detail: format!("{} of key {} returned {} before its insert began", who, k, v), op_index: 0 });
+                            out.push(Violation {
+                                props: if *is_iter { vec!["C16"] } else { vec!["C02"] },
+                                sig: "concurrent:future-value".into(),
+                                detail: format!("{} of key {} returned {} before its insert began", who, k, v),
+                                op_index: 0,
+                            });
                         }
                         if let (Some(ttl), true) = (ttl, w.done) {
                             // the write was stamped no later than the clock at its return, the get read
                             // the clock no earlier than at its call
                             if e.clock_call >= w.clock_ret.saturating_add(ttl) {
                                 out.push(Violation {
-                                    props: vec!["C05", "C02"],
+                                    props: if *is_iter { vec!["C16", "C05"] } else { vec!["C05", "C02"] },
                                     sig: "concurrent:ttl-expired-value".into(),
                                     detail: format!("{} of key {} at clock {} returned {} written at clock <= {} with time_to_live {}", who, k, e.clock_call, v, w.clock_ret, ttl),
                                     op_index: 0,
@@ -362,14 +500,14 @@ fn check_history(evs: &[Ev], final_gets: &[(u32, Option<u64>)], final_stamp: u64
                         }
                         if let Some(by) = superseded(w, *begin, *k) {
                             // C01 in its concurrent reading: not the latest live value
-                            let mut props = vec!["C02", "C01"];
+                            let mut props = if *is_iter { vec!["C16"] } else { vec!["C02", "C01"] };
                             if by.starts_with("invalidate") {
                                 props.push("C07");
                             }
                             out.push(Violation {
                                 props,
                                 sig: format!("concurrent:stale-value:{}", by.split_whitespace().next().unwrap_or("")),
-                                detail: format!("{} of key {} returned {} although it had been superseded by a completed {} before the get began", who, k, v, by),
+                                detail: format!("{} of key {} returned {} although it had been superseded by a completed {} before it began", who, k, v, by),
                                 op_index: 0,
                             });
                         }
@@ -378,7 +516,7 @@ fn check_history(evs: &[Ev], final_gets: &[(u32, Option<u64>)], final_stamp: u64
                         let ent = last_seen.entry((e.tid, writer)).or_insert(0);
                         if c < *ent {
                             out.push(Violation {
-                                props: vec!["C02"],
+                                props: if *is_iter { vec!["C16"] } else { vec!["C02"] },
                                 sig: "concurrent:values-went-backwards".into(),
                                 detail: format!("thread {} saw value #{} of writer {} for key {} after it had seen #{}", e.tid, c, writer, k, *ent),
                                 op_index: 0,
@@ -415,6 +553,45 @@ fn check_history(evs: &[Ev], final_gets: &[(u32, Option<u64>)], final_stamp: u64
     (out, st)
 }
 
+/// An explicit `sync()` takes the maintenance lock and then applies every write operation that is in
+/// the queue at that moment, so everything queued by calls that had returned before it began is
+/// applied when it returns. What is left in the queue right after it returned can only stem from
+/// inserts / invalidates of other threads that overlapped the call (each queues at most one
+/// operation). More than that means that maintenance ran and left replaced or invalidated entries
+/// (C11), and the counters (C10), behind.
+fn check_sync_backlog(evs: &[Ev], stats: &mut mmv::monitor::Stats) -> Vec<Violation> {
+    let mut out = Vec::new();
+    let writes: Vec<&Ev> = evs.iter().filter(|e| matches!(e.op, COp::Insert { .. } | COp::Invalidate { .. })).collect();
+    let mut calls: Vec<u64> = writes.iter().map(|e| e.call).collect();
+    let mut rets: Vec<u64> = writes.iter().filter(|e| e.done).map(|e| e.ret).collect();
+    calls.sort_unstable();
+    rets.sort_unstable();
+    for s in evs.iter().filter(|e| e.op == COp::Sync && e.done) {
+        stats.inc("explicit_syncs_judged");
+        let left = s.result.unwrap_or(0);
+        if left == 0 {
+            continue;
+        }
+        stats.inc("explicit_syncs_with_overlapping_writes_left_queued");
+        let began_before_return = calls.partition_point(|c| *c < s.ret) as u64;
+        let returned_before_call = rets.partition_point(|r| *r <= s.call) as u64;
+        let overlapping = began_before_return - returned_before_call;
+        if left > overlapping {
+            out.push(Violation {
+                props: vec!["C11", "C10", "C09"],
+                sig: "sync-left-queued-writes".into(),
+                detail: format!(
+                    "sync() by thread {} returned with {} write operations still queued although only {} inserts/invalidates of other threads overlapped the call",
+                    s.tid, left, overlapping
+                ),
+                op_index: 0,
+            });
+            break;
+        }
+    }
+    out
+}
+
 // ---------------------------------------------------------------------------------------------
 // quiescence monitors (after join + sync)
 // ---------------------------------------------------------------------------------------------
@@ -439,11 +616,16 @@ fn quiescence_checks(sh: &Shared, cfg: &Config, keys: u32, stats: &mut mmv::moni
         return out; // sync() below would still work, but inserts would spin: stop here
     }
     sh.cache.sync();
+    // nothing else runs: one explicit maintenance run applies everything that was queued
+    let (r1, w1, _) = sh.cache.verif_queue_state();
+    if r1 != 0 || w1 != 0 {
+        out.push(Violation { props: vec!["C09", "C10", "C11"], sig: "queues-not-drained-by-sync".into(), detail: format!("after all threads stopped and one sync(): {} reads and {} writes still queued", r1, w1), op_index: 0 });
+    }
     sh.cache.sync();
     let s = sh.snapshot();
     stats.inc("quiescence_checks");
-    if s.rlen != 0 || s.wlen != 0 {
-        out.push(Violation { props: vec!["C09", "C10"], sig: "queues-not-drained-by-sync".into(), detail: format!("after sync(): {} reads and {} writes still queued", s.rlen, s.wlen), op_index: 0 });
+    if (s.rlen != 0 || s.wlen != 0) && out.is_empty() {
+        out.push(Violation { props: vec!["C09", "C10", "C11"], sig: "queues-not-drained-by-sync".into(), detail: format!("after sync(): {} reads and {} writes still queued", s.rlen, s.wlen), op_index: 0 });
     }
     for (code, msg) in structural_errors(&s, true, cfg.ttl.is_some()) {
         out.push(Violation { props: vec!["C08", "C11", "C10"], sig: format!("structure:{}", code), detail: msg, op_index: 0 });
@@ -607,6 +789,7 @@ fn point_code(p: Point) -> u8 {
         Point::SyncUnlocked => 19,
         Point::UpsertBeforeVictims => 20,
         Point::UpsertBeforeReject => 21,
+        Point::UpsertNoRoom => 24,
     }
 }
 
@@ -629,6 +812,9 @@ fn run_program(prog: &Prog, mode: &str, strategy: Strategy, sseed: u64, stats: &
     let cache = build_sync(&prog.cfg);
     let clock = cache.verif_install_mock_clock();
     let base = clock.now();
+    if prog.idle {
+        clock.advance(Duration::from_millis(2 * mini_moka::verif::constants::PERIODICAL_SYNC_INTERVAL_MILLIS));
+    }
     let sh = Arc::new(Shared { cache, clock, base });
     let n = prog.threads.len();
     let logs: Arc<Mutex<Vec<Vec<Ev>>>> = Arc::new(Mutex::new(vec![Vec::new(); n]));
@@ -711,8 +897,11 @@ fn run_program(prog: &Prog, mode: &str, strategy: Strategy, sseed: u64, stats: &
                 DELAY_RNG.with(|r| *r.borrow_mut() = Some(Rng::new(tseed)));
             }
             let r = std::panic::catch_unwind(std::panic::AssertUnwindSafe(|| {
-                for op in &ops {
+                for (oi, op) in ops.iter().enumerate() {
                     exec_op(&sh, i, &mut counter, *op, &mut log);
+                    if let (Some(b), true) = (&baton, oi + 1 < ops.len()) {
+                        b.between_ops();
+                    }
                 }
             }));
             if let Some(b) = &baton {
@@ -815,7 +1004,36 @@ fn run_program(prog: &Prog, mode: &str, strategy: Strategy, sseed: u64, stats: &
     // must be there after the threads have stopped, for get and for iteration alike.
     {
         let cfg = &prog.cfg;
-        let max_w: u64 = evs.iter().filter_map(|e| if let COp::Insert { w, .. } = e.op { Some(if cfg.weigher { w as u64 } else { 1 }) } else { None }).max().unwrap_or(1);
+        let eff_w = |w: u32| if cfg.weigher { w as u64 } else { 1 };
+        let too_big = |w: u32| cfg.cap.map(|c| eff_w(w) > c).unwrap_or(false);
+        // A value heavier than max_capacity weighs on the others only when it replaces the value of
+        // an admitted entry. When every write to its key is ordered and it comes right after a
+        // completed invalidate of the key (or first) and is followed by one (or last), it is the
+        // only value its entry ever has: that entry is never admitted and never counted.
+        let mut big_are_fresh = true;
+        for k in 0..keys {
+            let mut ws: Vec<&Ev> = evs.iter().filter(|e| e.op.key() == Some(k) && matches!(e.op, COp::Insert { .. } | COp::Invalidate { .. })).collect();
+            if !ws.iter().any(|e| matches!(e.op, COp::Insert { w, .. } if too_big(w))) {
+                continue;
+            }
+            ws.sort_by_key(|e| e.call);
+            let ordered = ws.iter().all(|e| e.done) && ws.windows(2).all(|p| p[0].ret < p[1].call);
+            let isolated = ws.iter().enumerate().all(|(i, e)| match e.op {
+                COp::Insert { w, .. } if too_big(w) => {
+                    (i == 0 || matches!(ws[i - 1].op, COp::Invalidate { .. })) && (i + 1 == ws.len() || matches!(ws[i + 1].op, COp::Invalidate { .. }))
+                }
+                _ => true,
+            });
+            if !ordered || !isolated {
+                big_are_fresh = false;
+            }
+        }
+        let max_w: u64 = evs
+            .iter()
+            .filter_map(|e| if let COp::Insert { w, .. } = e.op { Some(eff_w(w)) } else { None })
+            .filter(|w| !big_are_fresh || cfg.cap.map(|c| *w <= c).unwrap_or(true))
+            .max()
+            .unwrap_or(1);
         // "No capacity pressure possible" must hold even transiently: while a Remove op is queued
         // behind a later insert of the same key, the invalidated entry and its successor are both
         // counted, so every key can weigh twice for a moment.
@@ -869,8 +1087,10 @@ fn run_program(prog: &Prog, mode: &str, strategy: Strategy, sseed: u64, stats: &
         }
     }
     let (hv, cs) = check_history(&evs, &finals, fstamp, prog.cfg.ttl);
+    out.violations.extend(check_sync_backlog(&evs, stats));
     out.overlapping_reads = cs.overlapping_reads;
     stats.add("gets_judged", cs.gets_judged);
+    stats.add("iteration_items_judged_against_history", cs.iter_items_judged);
     out.violations.extend(hv);
     out.violations.extend(pre_q);
     if out.violations.is_empty() {
@@ -958,18 +1178,31 @@ fn gen_park_prog(rng: &mut Rng) -> Prog {
             let n = mini_moka::verif::constants::READ_LOG_SIZE as u64 + rng.range(1, 60);
             threads.push((0..n).map(|i| COp::Get { k: (i % 7) as u32 }).collect());
         }
-        return Prog { cfg, threads };
+        return Prog { cfg, threads, idle: false };
+    }
+    // "backlog": the writers finish while the maintainer is parked inside a run (their own attempts to
+    // run the maintenance fail), then the maintainer runs it explicitly on a queue that holds more
+    // than one flush point of operations
+    let backlog = rng.chance(1, 2);
+    if backlog {
+        let t0 = &mut threads[0];
+        for i in 0..rng.range(1, 3) {
+            t0.push(COp::Sync);
+            t0.push(COp::Sync);
+            t0.push(COp::Insert { k: 600 - 1 - i as u32, w: 1 });
+        }
+        t0.push(COp::Sync);
     }
     for t in 0..rng.range(1, 2) {
         let mut v = Vec::new();
-        let n = WRITE_LOG_SIZE as u64 + rng.range(1, 40);
+        let n = if backlog { rng.range(70, 300) } else { WRITE_LOG_SIZE as u64 + rng.range(1, 40) };
         for i in 0..n {
             let k = 10 + ((t * 300 + i) % 590) as u32;
             v.push(if rng.chance(1, 12) { COp::Invalidate { k } } else { COp::Insert { k, w: 1 } });
         }
         threads.push(v);
     }
-    Prog { cfg, threads }
+    Prog { cfg, threads, idle: false }
 }
 
 fn mode_programs(args: &Args, mode: &str) {
@@ -1094,7 +1327,7 @@ fn gen_chase_prog(rng: &mut Rng, scale: u64) -> Prog {
             if rng.chance(1, 2) {
                 threads.push((0..n / 2).map(|_| COp::Sync).collect());
             }
-            return Prog { cfg, threads };
+            return Prog { cfg, threads, idle: false };
         }
     }
     for _ in 0..writers {
@@ -1115,7 +1348,7 @@ fn gen_chase_prog(rng: &mut Rng, scale: u64) -> Prog {
     for _ in 0..readers {
         let mut ops = Vec::new();
         for _ in 0..rng.range(200, 500) * scale {
-            ops.push(COp::Get { k: rng.below(keys as u64) as u32 });
+            ops.push(if rng.chance(1, 16) { COp::Iter } else { COp::Get { k: rng.below(keys as u64) as u32 } });
         }
         threads.push(ops);
     }
@@ -1123,7 +1356,7 @@ fn gen_chase_prog(rng: &mut Rng, scale: u64) -> Prog {
         // a thread that keeps running the maintenance explicitly, beside the nested runs
         threads.push((0..rng.range(50, 200) * scale).map(|_| COp::Sync).collect());
     }
-    Prog { cfg, threads }
+    Prog { cfg, threads, idle: false }
 }
 
 /// "Storm": several threads call invalidate_all in tight loops while others insert a key,
@@ -1144,11 +1377,11 @@ fn gen_storm_prog(rng: &mut Rng, scale: u64) -> Prog {
             let k = rng.below(keys as u64) as u32;
             ops.push(COp::Insert { k, w: 1 });
             ops.push(COp::InvalidateAll);
-            ops.push(COp::Get { k });
+            ops.push(if rng.chance(1, 3) { COp::Iter } else { COp::Get { k } });
         }
         threads.push(ops);
     }
-    Prog { cfg, threads }
+    Prog { cfg, threads, idle: false }
 }
 
 fn gen_big_prog(rng: &mut Rng) -> Prog {
@@ -1165,7 +1398,8 @@ fn gen_big_prog(rng: &mut Rng) -> Prog {
             ops.push(match rng.below(40) {
                 0..=15 => COp::Insert { k, w },
                 16..=29 => COp::Get { k },
-                30 | 31 => COp::Contains { k },
+                30 => COp::Contains { k },
+                31 => COp::Iter,
                 32..=36 => COp::Invalidate { k },
                 37 => COp::InvalidateAll,
                 _ => COp::Sync,
@@ -1173,7 +1407,7 @@ fn gen_big_prog(rng: &mut Rng) -> Prog {
         }
         threads.push(ops);
     }
-    Prog { cfg, threads }
+    Prog { cfg, threads, idle: false }
 }
 
 /// Single-threaded bursts of 10x the write-log size without sync(), in both housekeeping
@@ -1370,18 +1604,28 @@ fn mode_burstn(args: &Args) {
         BACKOFFS.store(0, Ordering::SeqCst);
         let per = 10 * WRITE_LOG_SIZE as u64;
         let max_seen = Arc::new(AtomicU64::new(0));
+        // The map size is a sum over the shards of the map, read one after the other: it can count
+        // entries that never were in the map together, but only entries put there while it was being
+        // read. Inserts that began during the read are therefore taken off the sample (the ones in
+        // flight when it began are the "entry per inserting thread" of the bound).
+        let started = Arc::new(AtomicU64::new(0));
         let mut hs = Vec::new();
         for t in 0..nthreads {
             let sh2 = Arc::clone(&sh);
             let ms = Arc::clone(&max_seen);
+            let started = Arc::clone(&started);
             let tseed = rng.next_u64();
             hs.push(std::thread::spawn(move || {
                 sched::set_tid(t);
                 DELAY_RNG.with(|r| *r.borrow_mut() = Some(Rng::new(tseed)));
                 for i in 0..per {
                     let k = (t as u64 * 1_000_000 + i) as u32;
+                    started.fetch_add(1, Ordering::SeqCst);
                     sh2.cache.insert(TK::new(k), TV::new(i + 1, 1));
-                    ms.fetch_max(sh2.cache.verif_map_len() as u64, Ordering::Relaxed);
+                    let s0 = started.load(Ordering::SeqCst);
+                    let n = sh2.cache.verif_map_len() as u64;
+                    let during = started.load(Ordering::SeqCst) - s0;
+                    ms.fetch_max(n.saturating_sub(during), Ordering::Relaxed);
                 }
                 DELAY_RNG.with(|r| *r.borrow_mut() = None);
                 sched::set_tid(usize::MAX);
